@@ -1,5 +1,8 @@
-"""C14 -- the aggregator only publishes certificates clients can verify to genesis."""
-from checks import agg_common
+"""C14 -- the aggregator only publishes certificates clients can verify to genesis.
+Leader stages (Aggregator.tla, checks/agg_common.py) followed by the follower stages (Follower.tla, checks/c14f.py)."""
+import os
+
+from checks import agg_common, c14f
 
 PROP = "C14"
 
@@ -13,8 +16,11 @@ def select(behaviours, thorough):
 
 def run(tier, seed):
     c = agg_common.run(PROP, tier, seed, select)
+    c14f.stage(c, tier, seed)
     return c.finish()
 
 
 def replay(path, seed):
+    if "follower" in os.path.basename(path):
+        return c14f.replay(path, seed, prop=PROP)
     return agg_common.replay(PROP, path, seed)
